@@ -15,13 +15,48 @@ Definition res_eqb (a b : option nat * option bytes) : bool :=
 
 Definition is_some_nat (o : option nat) : bool := match o with Some _ => true | None => false end.
 
+(* one request of a history on one Context: the operation addressed (its consumes list as declared; the route's
+   Consumes and Consumers keys as the Context hands them out at that moment), the request, the entry point
+   (0 Context.BindValidRequest, 1 Context.BindAndValidate, 2 the untyped API handler), what was observed inside the
+   history (status: None = no error, for the handler None = 200; csm = the consumer that decoded; ran = no refusal:
+   the binder went through / the handler ran) and for the same request on a fresh Context (f_) *)
+Inductive hstep :=
+| HStep (declared consumes keys : list bytes) (cl_positive hdr nonempty hasbody_impl : bool)
+        (lines : list bytes) (asked : bytes) (parse reparse : option bytes) (entry : nat)
+        (status : option nat) (csm : option bytes) (ran : bool)
+        (f_status : option nat) (f_cons : option bytes) (f_ran : bool).
+
 Inductive case :=
 | CGate (declared : list bytes) (default : bytes) (registered : list bytes) (consumes keys : list bytes)
         (cl_positive hdr nonempty hasbody_impl : bool)
         (lines : list bytes) (asked : bytes) (parse reparse : option bytes) (ct_impl : option bytes)
         (t_status : option nat) (t_cons : option bytes)
         (u_status : option nat) (u_cons : option bytes)
-        (h_status : nat) (h_cons : option bytes) (h_ran : bool).
+        (h_status : nat) (h_cons : option bytes) (h_ran : bool)
+(* several requests answered one after the other by ONE Context of an API with several operations (same path under
+   different methods, and other paths), each with its own consumes list *)
+| CHist (default : bytes) (registered : list bytes) (steps : list hstep).
+
+Definition step_check (default : bytes) (registered : list bytes) (st : hstep) : bool * bool :=
+  match st with
+  | HStep declared consumes keys cl_positive hdr nonempty hasbody_impl lines asked parse reparse entry
+          status csm ran f_status f_cons f_ran =>
+    let hb := has_body cl_positive hdr nonempty in
+    let mconsumes := add_route_consumes declared default in
+    let g := gate_req default registered (mkgreq declared hb parse reparse (Nat.eqb entry 0)) in
+    let mo := (first_status g, decoding_consumer g) in
+    (* the answer inside the history is the answer of a fresh Context *)
+    let same := res_eqb (status, csm) (f_status, f_cons) && Bool.eqb ran f_ran in
+    let corr :=
+      same_set_b consumes mconsumes && same_set_b keys (route_consumers mconsumes registered) &&
+      Bool.eqb hasbody_impl hb && bytes_eqb asked (content_type_input lines) &&
+      match parse with Some _ => opt_bytes_eqb reparse parse | None => true end &&
+      res_eqb (status, csm) mo && Bool.eqb ran (negb (is_some_nat (fst mo))) && same in
+    let ex := expected_req default registered
+                (mkgreq declared (cl_positive || (negb hdr && nonempty)) parse reparse (Nat.eqb entry 0)) in
+    let prop := res_eqb (status, csm) ex && Bool.eqb ran (negb (is_some_nat (fst ex))) && same in
+    (corr, prop)
+  end.
 
 (* registered = media types a consumer is registered for on the API (harness input); consumes, keys = route.Consumes
    and the keys of route.Consumers as built by the real AddRoute; lines = the Content-Type header lines of the request;
@@ -59,4 +94,10 @@ Definition check_case (c : case) : N :=
       (* the API default is always added to the consumes list: an entry of the route's list names it *)
       (is_nilb default || listed_ci consumes default) in
     verdict corr prop
+  | CHist default registered steps =>
+    match steps with
+    | [] => verdict false true
+    | _ => let rs := map (step_check default registered) steps in
+           verdict (forallb fst rs) (forallb snd rs)
+    end
   end.
